@@ -47,7 +47,7 @@ def run(ctx, rep):
     pairs += [('role:r0', 'role:r0'), ('role:r0', 'role:r1'), ('', 'role:r1'), ('role:r1', ''), ('@', '!')]
     rows = []
     for renamed, flag, new_ovr, old_ovr, loc, multi in itertools.product(
-            (True, False), (True, False), (False, True), ('absent', 'arbitrary', 'alias'), ('main', 'dir'), (False, True)):
+            (True, False), (True, False), (False, True), ('absent', 'arbitrary', 'alias'), ('main', 'dir', 'both'), (False, True)):
         if not renamed and old_ovr != 'absent':
             continue          # same name: an "old-name override" is the new-name override
         rows.append((renamed, flag, new_ovr, old_ovr, loc, multi))
@@ -73,6 +73,11 @@ def run(ctx, rep):
                     file_rules[old_name] = 'rule:' + new_name
                 if loc == 'main':
                     w.write((None, None), file_rules, 2, record=False)
+                elif loc == 'both':
+                    # the main file holds other values for the same names; policy.d (loaded later) wins
+                    shadow = {k: ctx.rng.choice(['role:r0', 'role:r1', '!', '@', 'rule:' + new_name]) for k in file_rules}
+                    w.write((None, None), shadow, 2, record=False)
+                    w.write((0, 'o.yaml'), file_rules, 3, record=False)
                 else:
                     w.write((None, None), {'unrelated': '@'}, 2, record=False)
                     w.write((0, 'o.yaml'), file_rules, 3, record=False)
@@ -116,7 +121,7 @@ def run(ctx, rep):
         if mr != obs:
             rep.disagree('loader-deprecation', {'regs': regs, 'file_rules': fr}, mr, obs)
     rep.rules.append('%d rows of the override table (renamed or same-name x enforce_new_defaults x new-name override x old-name '
-                     'override absent/arbitrary/alias x override in the main file or in policy.d x one or two successors of the '
+                     'override absent/arbitrary/alias x override in the main file, in policy.d, or in both with different values x one or two successors of the '
                      'deprecated name) x %d pairs of check strings from the expression generator, all 8 role subsets; old-name '
                      'overrides textually equal to the deprecated default are not generated' % (len(rows), len(pairs)))
 
